@@ -38,6 +38,14 @@ package bondmachine
 
 //@ func (vm *VM) Step(sc *SimConfig) (string, error)
 //@   requires shapeSim(vm) && sepSim(vm)
+//@   requires distinct_ports: (forall i int, k int :: 0 <= i && i < k && k < len(vm.Bmach.Internal_inputs) && vm.Bmach.Internal_inputs[i].Map_to == 1 && vm.Bmach.Internal_inputs[k].Map_to == 1 ==>
+//@               vm.Bmach.Internal_inputs[i].Res_id != vm.Bmach.Internal_inputs[k].Res_id) &&
+//@            (forall i int, k int :: 0 <= i && i < k && k < len(vm.Bmach.Internal_outputs) && vm.Bmach.Internal_outputs[i].Map_to == 0 && vm.Bmach.Internal_outputs[k].Map_to == 0 ==>
+//@               vm.Bmach.Internal_outputs[i].Res_id != vm.Bmach.Internal_outputs[k].Res_id)
+//@   ensures ext_out: forall i int :: 0 <= i && i < len(vm.Bmach.Internal_inputs) && vm.Bmach.Internal_inputs[i].Map_to == 1 ==>
+//@             vm.Outputs_regs[vm.Bmach.Internal_inputs[i].Res_id] == vm.Internal_inputs_regs[i] && vm.OutputsValid[vm.Bmach.Internal_inputs[i].Res_id] == vm.InternalInputsValid[i]
+//@   ensures ext_ack: forall i int :: 0 <= i && i < len(vm.Bmach.Internal_outputs) && vm.Bmach.Internal_outputs[i].Map_to == 0 ==>
+//@             vm.InputsRecv[vm.Bmach.Internal_outputs[i].Res_id] == vm.InternalOutputsRecv[i]
 //@   ensures links_data: forall i int :: 0 <= i && i < len(vm.Bmach.Links) && vm.Bmach.Links[i] != -1 ==>
 //@             vm.Internal_inputs_regs[i] == vm.Internal_outputs_regs[vm.Bmach.Links[i]] &&
 //@             vm.InternalInputsValid[i] == vm.InternalOutputsValid[vm.Bmach.Links[i]]
@@ -88,6 +96,8 @@ package bondmachine
 //@             vm.Internal_inputs_regs[k] == vm.Internal_outputs_regs[vm.Bmach.Links[k]] &&
 //@             vm.InternalInputsValid[k] == vm.InternalOutputsValid[vm.Bmach.Links[k]]
 //@   loop 12: modifies vm.Outputs_regs[*], vm.OutputsValid[*]
+//@   loop 12: invariant ext_out: forall k int :: 0 <= k && k < $i && vm.Bmach.Internal_inputs[k].Map_to == 1 ==>
+//@             vm.Outputs_regs[vm.Bmach.Internal_inputs[k].Res_id] == vm.Internal_inputs_regs[k] && vm.OutputsValid[vm.Bmach.Internal_inputs[k].Res_id] == vm.InternalInputsValid[k]
 //@   loop 13: modifies vm.InternalInputsRecv[*]
 //@   loop 14: modifies dataRecv[*]
 //@   loop 14: invariant keys1: forall j int :: haskey(dataRecv, j) ==> fedBy(vm, j, i)
@@ -101,6 +111,8 @@ package bondmachine
 //@   loop 15: invariant done0: forall j int :: 0 <= j && j < $i && !vm.InternalOutputsRecv[j] ==>
 //@             (!fedBy(vm, j, len(vm.Bmach.Links)) || (exists k int :: 0 <= k && k < len(vm.Bmach.Links) && vm.Bmach.Links[k] == j && !vm.InternalInputsRecv[k]))
 //@   loop 16: modifies vm.InputsRecv[*]
+//@   loop 16: invariant ext_ack: forall k int :: 0 <= k && k < $i && vm.Bmach.Internal_outputs[k].Map_to == 0 ==>
+//@             vm.InputsRecv[vm.Bmach.Internal_outputs[k].Res_id] == vm.InternalOutputsRecv[k]
 
 //@ func (vm *VM) DumpIO() string
 //@   trusted
